@@ -2,6 +2,7 @@
 from contracts import c01_lp, c02_rename  # noqa
 from contracts import c01_populate as POP
 from contracts import c02_rxn_add_metabolites as RAM
+from contracts import c02_add_reactions as AR
 from props._generic import run_property, replay_with_driver
 
 LEVEL = "other"
@@ -10,7 +11,10 @@ KEYS = ["Reaction._check_bounds", "Reaction.update_variable_bounds", "Reaction.l
 # renaming an object of a model keeps the solver objects' names in step (contracts shared with C02; own hook table); the assumed
 # optlang contracts they rest on are listed so that they appear in the trusted base
 RENAME_KEYS = ["Reaction._set_id_with_model", "Metabolite._set_id_with_model", "Variable.name@setter", "Constraint.name@setter",
-               "Container.__getitem__", "Reaction.forward_variable@getter", "Reaction.reverse_variable@getter"]
+               "Container.__getitem__"]
+# the reaction's solver-variable getters: PROVED against their real bodies (contracts/c01_lp.py, own hook table); the optlang look-up they
+# bottom out in is listed so that it appears in the trusted base
+GETTER_KEYS = c01_lp.GETTER_KEYS
 
 
 def fallback(key, case, rec):
@@ -56,9 +60,11 @@ def fallback(key, case, rec):
 
 
 def run(rep):
-    run_property(rep, KEYS, fallback=fallback, more=[(RENAME_KEYS, c02_rename.HOOKS), ([POP.KEY], POP.HOOKS),
-                                                        (RAM.KEYS, RAM.HOOKS)],
+    run_property(rep, KEYS, fallback=fallback, more=[(RENAME_KEYS, c02_rename.HOOKS), (GETTER_KEYS, c01_lp.GETTER_HOOKS), ([POP.KEY], POP.HOOKS),
+                                                        (RAM.KEYS, RAM.HOOKS), (AR.KEYS, AR.HOOKS)],
                  lemmas=lambda: POP.lemmas() + [o for o in RAM.lemmas() if "rows" in o.name or "undo" in o.name], explanation=(
+        "Reaction.forward_variable / reverse_variable / reverse_id (assumed contracts until round 5) are proved against their real bodies: None without a model, else the look-up model.variables[id] resp. [reverse_id] in the variables container of the solver of the reaction's own model (through the real Model.variables / Model.solver getters), which is fwd / rev of the reaction under the stated in-step assumption; reverse_id = '_'.join((id, 'reverse', md5(id utf-8).hexdigest()[0:5])), the documented shape. "
+        "Model.add_reactions (no context) is proved to call _populate_solver exactly once, with exactly the reactions that joined, in the exit state (every joining reaction linked, appended and found under its identifier - the cobra-side precondition of _populate_solver's contract), and not at all when it raises. "
         "Deductive (kernel): Reaction.update_variable_bounds is proved, for all extended-real bounds with lb<=ub, lb<+inf, ub>-inf, "
         "to give the forward/reverse variable pair bounds such that the net flux f-r ranges over exactly [lb,ub] (both inclusions, "
         "the statement's wording), to follow the documented three-branch map, to keep both variables non-negative and to touch no "
@@ -86,7 +92,9 @@ def run(rep):
         "metabolite, no other cell written; lemma rows-preserved: if every row mirrored the stoichiometry at entry it does at exit. "
         "The closure of the invariant over all public operations and histories is NOT proved: it is covered "
         "by the bounded driver (exhaustive/seeded histories with the GLPK problem read back through swiglpk after every step)."),
-        trusted=["optlang Variable.set_bounds / model.variables lookup (assumed contracts)", "md5-based reverse_id injective",
+        trusted=["optlang Variable.set_bounds; optlang Container look-up by name (VarContainer.__getitem__: model.variables[name] is the object registered under name, KeyError if none)",
+                 "solver in step (axiom of the proved forward_variable / reverse_variable getters): the objects registered in the solver of a reaction's model under its id / reverse id are the ones the contracts call fwd / rev, both exist and differ (md5-based reverse_id different from every reaction id)",
+                 "hashlib.md5(..).hexdigest()[0:5] and str.join as uninterpreted functions of their string arguments; reverse_id_of(id) DEFINED as '_'.join((id, 'reverse', md5 prefix))",
                  "reverse_id is a function of the current id (hook in contracts/c02_rename.py); lookup of a solver variable by name "
                  "finds the reaction's variable only while it carries the current (reverse) id",
                  "optlang name setters and model.constraints[name] (assumed contracts over the heap field opt_name)",
